@@ -1,0 +1,64 @@
+//go:build verif
+
+package nsqd
+
+import "sync"
+
+// VerifGate wraps the BackendQueue of one topic or channel.  When armed, the next Put
+// parks on entry -- after the caller (writeMessageToBackend) has serialised the message
+// and handed over the bytes, before the queue has seen them -- until released, exactly
+// like a disk queue whose write is slow.  Everything else is forwarded unchanged.
+type VerifGate struct {
+	BackendQueue
+	mu      sync.Mutex
+	reached chan struct{}
+	release chan struct{}
+}
+
+func (g *VerifGate) Put(b []byte) error {
+	g.mu.Lock()
+	reached, release := g.reached, g.release
+	g.reached, g.release = nil, nil
+	g.mu.Unlock()
+	if reached != nil {
+		close(reached)
+		<-release
+	}
+	return g.BackendQueue.Put(b)
+}
+
+// Arm makes the next Put park.  reached is closed when it has arrived; release lets it
+// continue (idempotent).
+func (g *VerifGate) Arm() (reached <-chan struct{}, release func()) {
+	g.mu.Lock()
+	defer g.mu.Unlock()
+	g.reached, g.release = make(chan struct{}), make(chan struct{})
+	rel := g.release
+	var once sync.Once
+	return g.reached, func() { once.Do(func() { close(rel) }) }
+}
+
+// VerifGateBackend installs a gate in front of the backend of the topic (channelName == "")
+// or of one of its channels.  Call it right after creating them, before any traffic.
+func (n *NSQD) VerifGateBackend(topicName, channelName string) (*VerifGate, bool) {
+	t, err := n.GetExistingTopic(topicName)
+	if err != nil {
+		return nil, false
+	}
+	if channelName == "" {
+		t.Lock()
+		defer t.Unlock()
+		g := &VerifGate{BackendQueue: t.backend}
+		t.backend = g
+		return g, true
+	}
+	c, err := t.GetExistingChannel(channelName)
+	if err != nil {
+		return nil, false
+	}
+	c.Lock()
+	defer c.Unlock()
+	g := &VerifGate{BackendQueue: c.backend}
+	c.backend = g
+	return g, true
+}
